@@ -211,6 +211,8 @@ def c08(F, R, tier):
     mod.check(F, R)
     import c01rt
     c01rt.check(F, R, tier, "C08")
+    import c08rt
+    c08rt.check(F, R, get_grammar(), tier)
 
 
 @prop("C01",
